@@ -977,3 +977,60 @@ pub fn to_base_2digit() {
     vcover!();
     std::mem::forget((x, s));
 }
+
+// multiplication with a ZERO limb inside an operand (the kernel skips zero limbs of lhs; carries
+// must still be propagated across the gap): 2x3 / 3x2 limbs with the middle limb fixed to 0,
+// all other limbs symbolic
+fn ref_mul192(a: &[u32], b: &[u32], out: &mut [u32; 6]) {
+    // schoolbook on 64-bit columns with explicit carries (independent of the repository code)
+    let mut col = [0u128; 6];
+    let mut i = 0;
+    while i < a.len() {
+        let mut j = 0;
+        while j < b.len() {
+            col[i + j] += (a[i] as u64 as u128) * (b[j] as u64 as u128);
+            j += 1;
+        }
+        i += 1;
+    }
+    let mut carry: u128 = 0;
+    let mut k = 0;
+    while k < 6 {
+        let t = col[k] + carry;
+        out[k] = t as u32;
+        carry = t >> 32;
+        k += 1;
+    }
+}
+// @h prop=C05 unwind=8 timeout=1800 mem=16 what=mult_core_2x3_with_rhs=[b0,0,b2](zero_middle_limb):all_other_limbs_symbolic,vs_column_sums
+#[cfg_attr(kani, kani::proof)]
+pub fn core_mult_2x3_zero_mid() {
+    let a: [u32; 2] = any_u32_arr();
+    let b = [any_u32(), 0u32, any_u32()];
+    let r = BigNum::mult_core(&a, &b);
+    let mut want = [0u32; 6];
+    ref_mul192(&a, &b, &mut want);
+    assert!(r.len() == 6);
+    let mut k = 0;
+    while k < 6 {
+        assert!(r[k] == want[k]);
+        k += 1;
+    }
+    vcover!();
+}
+// @h prop=C05 unwind=8 timeout=1800 mem=16 what=mult_core_3x2_with_lhs=[a0,0,a2](zero_middle_limb,the_kernel's_own_skip)
+#[cfg_attr(kani, kani::proof)]
+pub fn core_mult_3x2_zero_mid() {
+    let a = [any_u32(), 0u32, any_u32()];
+    let b: [u32; 2] = any_u32_arr();
+    let r = BigNum::mult_core(&a, &b);
+    let mut want = [0u32; 6];
+    ref_mul192(&a, &b, &mut want);
+    assert!(r.len() == 6);
+    let mut k = 0;
+    while k < 6 {
+        assert!(r[k] == want[k]);
+        k += 1;
+    }
+    vcover!();
+}
